@@ -70,16 +70,26 @@ theorem utf8_ascii_singleton {c : Char} (h : c.toNat < 128) : utf8 [c] = [c.toNa
 
 /-! ### percent-decoding -/
 
+theorem pctDecode_nil : pctDecode [] = [] := rfl
+
 theorem pctDecode_cons_ne {b : UInt8} (rest : Bytes) (h : b ≠ 0x25) :
     pctDecode (b :: rest) = b :: pctDecode rest := by
-  match rest with
-  | [] => simp [pctDecode]
-  | [c] => simp [pctDecode]
-  | c :: d :: rest' => simp [pctDecode, h]
+  simp [pctDecode, pctDecodeAux, h]
 
 theorem pctDecode_pct {h l hv lv : UInt8} (rest : Bytes) (hh : hexVal h = some hv) (hl : hexVal l = some lv) :
     pctDecode (0x25 :: h :: l :: rest) = (hv * 16 + lv) :: pctDecode rest := by
-  simp [pctDecode, hh, hl]
+  simp [pctDecode, pctDecodeAux, hh, hl]
+
+theorem pctDecode_ne_nil' {b : Bytes} (h : b ≠ []) : pctDecode b ≠ [] := by
+  cases b with
+  | nil => exact absurd rfl h
+  | cons x rest =>
+    simp only [pctDecode, pctDecodeAux]
+    split
+    · split
+      · split <;> simp
+      · simp
+    · simp
 
 /-- the byte of an (ASCII) char -/
 def byteOfChar (c : Char) : UInt8 := c.toNat.toUInt8
@@ -151,7 +161,7 @@ theorem pctDecode_pctEncodeByteB_append (set : UInt8 → Bool) (hp : set 0x25 = 
 theorem pctDecode_flatMap (set : UInt8 → Bool) (hp : set 0x25 = true) (bs : Bytes) :
     pctDecode (bs.flatMap (pctEncodeByteB set)) = bs := by
   induction bs with
-  | nil => simp [pctDecode]
+  | nil => rfl
   | cons b bs ih =>
     simp only [List.flatMap_cons]
     rw [pctDecode_pctEncodeByteB_append set hp, ih]
@@ -161,6 +171,11 @@ theorem decode_pctEncode (set : UInt8 → Bool) (hp : set 0x25 = true) (s : Str)
     decode (pctEncode set s) = .ok s := by
   unfold decode pctEncode
   rw [utf8_flatMap_pctEncodeByte, pctDecode_flatMap set hp, utf8Dec?_utf8]
+
+/-- decoding a concrete spelling: it suffices to compare bytes -/
+theorem decode_of_bytes {s t : Str} (h : pctDecode (utf8 s) = utf8 t) : decode s = .ok t := by
+  unfold decode
+  rw [h, utf8Dec?_utf8]
 
 /-! ### which characters an encoded component can contain -/
 
